@@ -14,9 +14,13 @@ must equal the exact correlation for the times the spec assigns to it (Gaussian-
 valued diagonal operators make every time tuple's value distinct), NaN elsewhere, and
 the returned axes must be start + dt * idx.
 """
+import json
+
 import numpy as np
 
 from harness import core, probes, ptc_engine as eng
+
+NCPU_HALF = max(2, core.NCPU // 2)
 
 LEVEL = "model_checking"
 
@@ -240,6 +244,101 @@ def bath_dynamics_job(job):
     return out
 
 
+SC_CFG = """SPECIFICATION Spec
+INVARIANT Square
+INVARIANT Covers
+INVARIANT Aligned
+PROPERTY Monotone
+"""
+SC_PRIMES = [2.0, 3.0, 5.0, 7.0, 11.0, 13.0, 17.0, 19.0, 23.0]
+_SC_FRESH = {}
+
+
+def _sc_setup(n, mode):
+    import oqupy
+    from oqupy.process_tensor import SimpleProcessTensor
+    dt = 0.1
+    if mode == "td":          # one position per step
+        d = n + 1
+        sysm = probes.clock_system("td", d, 1, 0, dt, 0.0)
+        pos = lambda k: k % d
+    else:                     # time-independent: one position per half step
+        d = 2 * n + 1
+        sysm = probes.clock_system("static", d, 1, 1, dt, 0.0)
+        pos = lambda k: (2 * k) % d
+    op = np.diag(SC_PRIMES[:d])
+    corr = oqupy.PowerLawSD(alpha=0.3, zeta=1.0, cutoff=2.0, cutoff_type="exponential", temperature=0.5)
+    bath = oqupy.Bath(op, corr)
+    pt = SimpleProcessTensor(d, dt=dt)
+    for k in range(n):
+        pt.set_mpo_tensor(k, np.eye(d * d).reshape(1, 1, d * d, d * d))
+    pt.compute_caps()
+    rho = np.zeros((d, d), dtype=complex)
+    rho[0, 0] = 1.0
+    val = lambda i, j: SC_PRIMES[pos(i)] * SC_PRIMES[pos(j)]
+    return sysm, bath, pt, rho, val, dt
+
+
+def _sc_matrix(n0, val):
+    m = np.full((n0, n0), np.nan + 1j * np.nan, dtype=complex)
+    for i in range(n0):
+        for j in range(i, n0):
+            m[i, j] = val(i, j)
+    return m
+
+
+def _sc_request(b, h, dt):
+    if h["op"] == "gen":
+        b.generate_system_correlations(h["q2"] * dt / 4, progress_type="silent")
+        return None
+    if h["op"] == "occ":
+        return b.occupation(1.3, progress_type="silent")[1]
+    return np.array([b.correlation(1.3, h["q1"] * dt / 4, freq_2=0.9, time_2=h["q2"] * dt / 4, dagg=dagg,
+                                   progress_type="silent") for dagg in ((1, 0), (0, 0))])
+
+
+def syscache_job(job):
+    """Replay one history of SysCorrCache.tla on a real TwoTimeBathCorrelations object (clock system, prime-valued
+    coupling operator: entry (i, j) of the stored matrix decodes to the pair of time steps it belongs to)."""
+    from oqupy import bath_dynamics
+    case, n, mode = job
+    sysm, bath, pt, rho, val, dt = _sc_setup(n, mode)
+    n0 = case["start"]
+    kw = {"system_correlations": _sc_matrix(n0, val)} if n0 > 0 else {}
+    try:
+        b = bath_dynamics.TwoTimeBathCorrelations(sysm, bath, pt, initial_state=rho.copy(), **kw)
+        for k, h in enumerate(case["hist"]):
+            got = _sc_request(b, h, dt)
+            mat = np.asarray(b._system_correlations)            # pylint: disable=protected-access
+            if mat.shape != (h["rows"], h["cols"]):
+                return [{"what": "stored-shape", "step": k, "expected": [h["rows"], h["cols"]], "observed": list(mat.shape)}]
+            want = probes.norm_seq(h["mat"])
+            for i in range(h["rows"]):
+                row = probes.norm_seq(want[i])
+                for j in range(h["cols"]):
+                    e = row[j]
+                    if e[0] == 99:
+                        if not np.isnan(mat[i, j]):
+                            return [{"what": "stored-not-nan", "step": k, "pos": [i, j], "observed": str(mat[i, j])}]
+                    elif np.isnan(mat[i, j]) or abs(mat[i, j] - val(e[0], e[1])) > 1e-9:
+                        return [{"what": "stored-entry", "step": k, "pos": [i, j], "expected_times": list(e),
+                                 "observed": str(mat[i, j])}]
+            if got is not None:
+                key = (n, mode, h["op"], h["q1"], h["q2"])
+                if key not in _SC_FRESH:
+                    fresh = bath_dynamics.TwoTimeBathCorrelations(sysm, bath, pt, initial_state=rho.copy())
+                    _SC_FRESH[key] = _sc_request(fresh, h, dt)
+                ref = _SC_FRESH[key]
+                if got.shape != ref.shape or not np.allclose(got, ref, rtol=0, atol=1e-11 * max(1.0, np.max(np.abs(ref)))):
+                    return [{"what": "answer-depends-on-history", "step": k, "op": h["op"], "q": [h["q1"], h["q2"]],
+                             "err": float(np.max(np.abs(got - ref))) if got.shape == ref.shape else "shape"}]
+    except Exception as ex:  # pylint: disable=broad-except
+        import traceback
+        return [{"what": "exception", "detail": "%s: %s" % (type(ex).__name__, str(ex)[:160]),
+                 "tb": traceback.format_exc()[-500:]}]
+    return []
+
+
 def spec_sets(n, rich):
     ints = '{[k |-> "int", v |-> x] : x \\in 0..%d}' % (n + 1)
     qs = sorted({4 * i + o for i in range(n + 1) for o in (-1, 0, 1)} - {-1})
@@ -360,6 +459,37 @@ def run(ctx):
         ctx.case({"bath_dynamics_requests": [str(x) for x in j[0]], "T": j[1]}, nontrivial=True)
         for x in mm:
             ctx.violation("C07:bath-dynamics:%s" % x["what"], "%s: %s" % (j, x), {"bath_dynamics": [[str(r) for r in j[0]], j[1]]})
+    # ---- the incremental store of system correlations behind bath_dynamics (SysCorrCache.tla)
+    scn = 3 if quick else 4
+    sc_consts = {"N": str(scn), "MaxReq": "2" if quick else "3", "Supplied": "{0, 2}" if quick else "{0, 1, 3}",
+                 "Dev": '"none"', "Emit": "TRUE"}
+    for dev in ("onerow", "tail"):
+        r = ctx.tlc("SysCorrCache", SC_CFG, label="deviation %s (must violate)" % dev, must_hold=False, workers=4,
+                    constants=dict(sc_consts, Dev='"%s"' % dev, Emit="FALSE"))
+        if r.ok:
+            raise core.MachineryError("SysCorrCache deviation %s not distinguished" % dev)
+    if quick:
+        sc = ctx.tlc("SysCorrCache", SC_CFG, label="all histories of 2 requests, N=3", constants=sc_consts, workers=4)
+        sc_cases = sc.cases
+    else:
+        ctx.tlc("SysCorrCache", SC_CFG, label="all histories of 3 requests, N=4 (properties)",
+                constants=dict(sc_consts, Emit="FALSE"), workers=NCPU_HALF)
+        sc = ctx.tlc("SysCorrCache", SC_CFG, label="sampled histories of 3 requests, N=4", constants=sc_consts, workers=1,
+                     simulate="num=6000", extra=["-depth", "5", "-seed", str(1000 + ctx.seed)])
+        seen_h, sc_cases = set(), []
+        for c in sc.cases:
+            hk = json.dumps(c, sort_keys=True)
+            if hk not in seen_h:
+                seen_h.add(hk)
+                sc_cases.append(c)
+    sjobs = [(c, scn, ("td", "static")[i % 2]) for i, c in enumerate(sc_cases)]
+    for j, mm in zip(sjobs, core.pmap(syscache_job, sjobs, chunksize=16)):
+        hd = [[h["op"], h["q1"], h["q2"]] for h in j[0]["hist"]]
+        ctx.case({"syscache": hd, "supplied": j[0]["start"], "system": j[2]},
+                 nontrivial=len({h["m"] for h in j[0]["hist"]}) > 1 or j[0]["start"] > 0)
+        for x in mm:
+            ctx.violation("C07:syscache:%s" % x["what"], "supplied=%d %s (%s): %s" % (j[0]["start"], hd, j[2], x),
+                          {"syscache": j[0], "n": scn, "system": j[2]})
     ctx.rule = ("tuples of time specifications enumerated by TLC (Correlations.tla; all pairs of %d-ish specifications for two "
                 "operators - every %dth pair replayed in this tier - and all triples of 8 for three operators) on ancilla "
                 "process tensors with memory; non-trivial = result contains at least one NaN entry" % (112, stride))
@@ -373,6 +503,8 @@ def replay(ctx, rep):
     c = rep["case"]
     if "dt_job" in c:
         mm = run_dt(tuple(c["dt_job"]))
+    elif "syscache" in c:
+        mm = syscache_job((c["syscache"], c["n"], c["system"]))
     else:
         # value tables are rebuilt from the spec
         raise core.MachineryError("replay of correlation cases: rerun the check (value tables come from TLC)")
